@@ -425,6 +425,366 @@ func (h *tbHist) tryOpen() string {
 	return out
 }
 
+// waitLocked polls the engine lock until it is found taken; free is the last moment it was seen free (the caller saw it
+// free before it made the gate fire), so the moment it
+// was taken lies in (free, now].  ok is false when it never was taken, or when the harness was not scheduled for so long
+// that the moment is not known to within 300 ms.
+func (h *tbHist) waitLocked(free time.Time, max time.Duration) (time.Time, bool) {
+	deadline := time.Now().Add(max)
+	for time.Now().Before(deadline) {
+		if h.rig.hk.TryLock() {
+			free = time.Now()
+		} else {
+			return free, time.Since(free) < 300*time.Millisecond
+		}
+		time.Sleep(2 * time.Millisecond)
+	}
+	return free, false
+}
+
+// refusedOpenThenRecover: the blind structure "has not been delivered yet" (level 0) when the gate fires, so the first
+// attempt of tableGameOpen is refused and the engine waits 3 s — holding its lock — before it tries again.  Meanwhile the
+// cause goes away through a lock-free call (the level arrives; now and then it is a break), and sometimes a call that
+// needs the lock (a re-buy) queues up behind the open.  The retry is its own event in the trace (`tb retry`).
+func (h *tbHist) refusedOpenThenRecover() string {
+	if h.unexpectedHand() {
+		h.abort()
+		return "aborted"
+	}
+	ids, _ := h.gateParticipants()
+	t := h.table()
+	if len(ids) < 2 || t.State.BlindState == nil || t.State.BlindState.Level <= 0 || t.State.GameState != nil ||
+		t.State.Status == pokertable.TableStateStatus_TableClosed || t.State.Status == pokertable.TableStateStatus_TablePausing || h.rig.hk.IsReleased() {
+		return h.tryOpen()
+	}
+	for _, id := range ids { // everybody awaited must be able to signal, else the gate waits for its own 2 s timer
+		ok := false
+		for _, p := range t.State.PlayerStates {
+			if p.PlayerID == pid(id) && p.IsIn {
+				ok = true
+			}
+		}
+		if !ok {
+			return h.tryOpen()
+		}
+	}
+	cur := *t.State.BlindState
+	h.opBlind(0, 0, 0, 0, 0)
+	if h.dead {
+		return "aborted"
+	}
+	h.expectHand = true
+	pre := h.table().State.GameCount
+	preSnaps := h.rig.snapCount()
+	wasInit := h.rig.hk.SeatManager().IsInitPositions()
+	if !h.rig.hk.TryLock() {
+		h.drop("refused-open-scenario-did-not-take-place")
+		return "aborted"
+	}
+	free := time.Now()
+	for _, k := range h.r.Perm(len(ids)) {
+		h.opFinish(ids[k])
+	}
+	// everybody signalled: the callback runs at once, the attempt is refused, the engine sleeps with its lock held
+	free, locked := h.waitLocked(free, time.Second)
+	if locked {
+		// the attempt itself runs for a moment with the lock held (it works on a clone of the table and replaces the table
+		// with it: a lock-free call landing in that moment is lost — finding D31): act only once it is over and the engine
+		// sits in its 3 s wait
+		time.Sleep(150 * time.Millisecond)
+		locked = !h.rig.hk.TryLock()
+	}
+	if !locked || h.table().State.GameCount != pre {
+		// not what was set up (the gate did not fire, or it opened): nothing to compare
+		h.drop("refused-open-scenario-did-not-take-place")
+		return "aborted"
+	}
+	h.line("tb fire ch=-1 create=1 | refused")
+	h.rec("fire", nil)
+	h.line("%s", h.rig.fullObsNoLock())
+	h.st.Refused++
+	h.st.OpMix["refused-open-then-retry"]++
+	// during the wait: the level arrives
+	toBreak := h.r.Intn(4) == 0
+	if toBreak {
+		h.rig.te.UpdateBlind(-1, 0, 0, 0, 0)
+		h.line("tb blind %d,%d,%d,%d,%d", -1, 0, 0, 0, 0)
+	} else {
+		h.rig.te.UpdateBlind(cur.Level, cur.Ante, cur.Dealer, cur.SB, cur.BB)
+		h.line("tb blind %d,%d,%d,%d,%d", cur.Level, cur.Ante, cur.Dealer, cur.SB, cur.BB)
+	}
+	h.rec("blind", nil)
+	h.line("%s", h.rig.fullObsNoLock())
+	// … and a re-buy of somebody seated queues up behind the open
+	type queued struct {
+		id    int
+		chips int64
+		err   error
+	}
+	var q *queued
+	qDone := make(chan struct{})
+	if h.r.Intn(2) == 0 {
+		who := ids[h.r.Intn(len(ids))]
+		q = &queued{id: who, chips: int64(100 + h.r.Intn(400))}
+		go func() {
+			q.err = h.rig.te.PlayerReserve(pokertable.JoinPlayer{PlayerID: pid(q.id), RedeemChips: q.chips, Seat: -1})
+			close(qDone)
+		}()
+	}
+	if time.Since(free) > 2500*time.Millisecond {
+		h.drop("harness-too-slow-inside-the-retry-wait")
+		return "aborted"
+	}
+	// the retry: 3 s after the first attempt
+	opened := waitFor(3600*time.Millisecond, func() bool {
+		t := h.table()
+		if t.State.GameCount == pre+1 && t.State.Status == pokertable.TableStateStatus_TableGamePlaying && t.State.GameState != nil {
+			return true
+		}
+		return q == nil && h.rig.hk.TryLock() // tableGameOpen returned without opening
+	})
+	outcome := "nothing"
+	ch := -1
+	if lt := h.table(); lt.State.GameCount == pre+1 && lt.State.Status == pokertable.TableStateStatus_TableGamePlaying {
+		// the first hand state reaches the table on the hand's own goroutine, a moment after tableGameOpen has returned
+		waitFor(time.Second, func() bool { return h.table().State.GameState != nil })
+	}
+	tt := h.table()
+	switch {
+	case opened && tt.State.GameCount == pre+1 && tt.State.Status == pokertable.TableStateStatus_TableGamePlaying && tt.State.GameState != nil:
+		waitFor(500*time.Millisecond, func() bool {
+			for _, s := range h.rig.snapsFrom(preSnaps) {
+				if s.State.GameState != nil && s.State.GameCount == pre+1 {
+					return true
+				}
+			}
+			return false
+		})
+		time.Sleep(300 * time.Microsecond)
+		outcome = "opened"
+		if !wasInit {
+			sm := h.rig.hk.SeatManager()
+			if tt.Meta.Rule == pokertable.CompetitionRule_ShortDeck {
+				ch = sm.CurrentDealerSeatID()
+			} else {
+				ch = sm.CurrentBBSeatID()
+			}
+		}
+	case tt.State.GameCount == pre+1 && tt.State.Status == pokertable.TableStateStatus_TableGameOpened:
+		outcome = "startfailed"
+		if !wasInit {
+			ch = h.rig.hk.SeatManager().CurrentBBSeatID()
+		}
+	default:
+		if q != nil {
+			// with a call queued the lock never looks free: tell "gave up" from "still retrying" by the queued call coming back
+			select {
+			case <-qDone:
+			case <-time.After(600 * time.Millisecond):
+				outcome = "refused"
+			}
+		} else if !h.rig.hk.TryLock() {
+			outcome = "refused"
+		}
+	}
+	h.line("tb retry ch=%d create=%s | %s", ch, b01(outcome != "startfailed"), outcome)
+	h.rec("retry", nil)
+	for _, s := range h.rig.snapsFrom(preSnaps) {
+		if s.State.Status == pokertable.TableStateStatus_TableGameOpened && s.State.GameCount == pre+1 {
+			h.line("tb snap-opened %s", tableObs(s))
+			break
+		}
+	}
+	if outcome == "refused" {
+		h.dead = true
+		h.line("%s", h.rig.fullObsNoLock())
+		return outcome
+	}
+	// what the backend received (before anything queued behind the open landed)
+	if outcome == "opened" {
+		calls := h.rig.be.Calls()
+		for i := len(calls) - 1; i >= 0; i-- {
+			if calls[i].Kind == "create" && calls[i].Opts != nil {
+				o := calls[i].Opts
+				ps := []string{}
+				for _, p := range o.Players {
+					ps = append(ps, fmt.Sprintf("%d:%s", p.Bankroll, strings.Join(p.Positions, "+")))
+				}
+				h.line("tb opts ante=%d blind=%d,%d,%d players=%s", o.Ante, o.Blind.Dealer, o.Blind.SB, o.Blind.BB, strings.Join(ps, ";"))
+				break
+			}
+		}
+		h.st.Hands++
+	} else {
+		h.expectHand = false
+	}
+	if q != nil {
+		// the queued re-buy lands once tableGameOpen has let go of the lock: after the hand was opened and started
+		select {
+		case <-qDone:
+		case <-time.After(2 * time.Second):
+			h.drop("queued-call-did-not-come-back")
+			return "aborted"
+		}
+		h.line("tb reserve id=%d chips=%d seat=-1 ch=- | %s", q.id, q.chips, tbErrName(q.err))
+		h.rec("reserve", q.err)
+		h.st.OpMix["re-buy-queued-behind-a-retrying-open"]++
+		h.quiesce()
+	}
+	h.line("%s", h.stableObs())
+	if outcome == "startfailed" {
+		h.dead = true // the table stays in `opened` with a hand that does not exist
+	}
+	return outcome
+}
+
+// refusedByPositionsThenRecover (first hand): only one of the players named to the gate has sat in, so the gate fires on
+// its own 2 s timer and the seat manager refuses to place the buttons (one active seat): tableGameOpen waits 3 s — holding
+// the engine lock — and tries again.  Meanwhile the others sit in (PlayerJoin takes no lock); now and then a break is
+// announced as well.  The retry is its own event in the trace.
+func (h *tbHist) refusedByPositionsThenRecover() string {
+	if h.unexpectedHand() {
+		h.abort()
+		return "aborted"
+	}
+	ids, _ := h.gateParticipants()
+	t := h.table()
+	in, out := []int{}, []int{}
+	for _, p := range t.State.PlayerStates {
+		named := false
+		for _, id := range ids {
+			if pid(id) == p.PlayerID {
+				named = true
+			}
+		}
+		switch {
+		case p.IsIn && p.Bankroll > 0:
+			in = append(in, idNum(p.PlayerID))
+		case named && !p.IsIn && p.Bankroll > 0:
+			out = append(out, idNum(p.PlayerID))
+		}
+	}
+	if len(in) != 1 || len(out) == 0 || len(ids) < 2 || h.rig.hk.SeatManager().IsInitPositions() || t.State.BlindState == nil || t.State.BlindState.Level <= 0 ||
+		t.State.Status == pokertable.TableStateStatus_TableClosed || t.State.Status == pokertable.TableStateStatus_TablePausing || h.rig.hk.IsReleased() {
+		return h.tryOpen()
+	}
+	h.expectHand = true
+	pre := t.State.GameCount
+	preSnaps := h.rig.snapCount()
+	if !h.rig.hk.TryLock() {
+		h.drop("refused-open-scenario-did-not-take-place")
+		return "aborted"
+	}
+	free := time.Now()
+	for _, k := range h.r.Perm(len(ids)) {
+		h.opFinish(ids[k]) // refused for whoever has not sat in: he stays awaited
+	}
+	free, locked := h.waitLocked(free, 2800*time.Millisecond)
+	if locked {
+		time.Sleep(150 * time.Millisecond) // see refusedOpenThenRecover
+		locked = !h.rig.hk.TryLock()
+	}
+	if !locked || h.table().State.GameCount != pre {
+		h.drop("refused-open-scenario-did-not-take-place")
+		return "aborted"
+	}
+	h.line("# engine lock found taken %d ms after it was last seen free", time.Since(free).Milliseconds())
+	h.line("tb fire ch=-1 create=1 | refused")
+	h.rec("fire", nil)
+	h.line("%s", h.rig.fullObsNoLock())
+	h.st.Refused++
+	h.st.OpMix["open-refused-by-the-seat-manager-then-retry"]++
+	if h.r.Intn(4) == 0 {
+		h.rig.te.UpdateBlind(-1, 0, 0, 0, 0)
+		h.line("tb blind %d,%d,%d,%d,%d", -1, 0, 0, 0, 0)
+		h.rec("blind", nil)
+		h.line("%s", h.rig.fullObsNoLock())
+	}
+	for _, id := range out {
+		err := h.rig.te.PlayerJoin(pid(id))
+		h.line("# %d ms into the retry wait", time.Since(free).Milliseconds())
+		h.line("tb join id=%d | %s", id, tbErrName(err))
+		h.rec("join", err)
+		h.quiesce()
+		h.line("%s", h.stableObs())
+	}
+	if time.Since(free) > 2500*time.Millisecond {
+		h.drop("harness-too-slow-inside-the-retry-wait")
+		return "aborted"
+	}
+	opened := waitFor(3600*time.Millisecond, func() bool {
+		t := h.table()
+		if t.State.GameCount == pre+1 && t.State.Status == pokertable.TableStateStatus_TableGamePlaying && t.State.GameState != nil {
+			return true
+		}
+		return h.rig.hk.TryLock()
+	})
+	outcome := "nothing"
+	ch := -1
+	if lt := h.table(); lt.State.GameCount == pre+1 && lt.State.Status == pokertable.TableStateStatus_TableGamePlaying {
+		// the first hand state reaches the table on the hand's own goroutine, a moment after tableGameOpen has returned
+		waitFor(time.Second, func() bool { return h.table().State.GameState != nil })
+	}
+	tt := h.table()
+	switch {
+	case opened && tt.State.GameCount == pre+1 && tt.State.Status == pokertable.TableStateStatus_TableGamePlaying && tt.State.GameState != nil:
+		waitFor(500*time.Millisecond, func() bool {
+			for _, s := range h.rig.snapsFrom(preSnaps) {
+				if s.State.GameState != nil && s.State.GameCount == pre+1 {
+					return true
+				}
+			}
+			return false
+		})
+		time.Sleep(300 * time.Microsecond)
+		outcome = "opened"
+		sm := h.rig.hk.SeatManager()
+		if tt.Meta.Rule == pokertable.CompetitionRule_ShortDeck {
+			ch = sm.CurrentDealerSeatID()
+		} else {
+			ch = sm.CurrentBBSeatID()
+		}
+	case tt.State.GameCount == pre+1 && tt.State.Status == pokertable.TableStateStatus_TableGameOpened:
+		outcome = "startfailed"
+		ch = h.rig.hk.SeatManager().CurrentBBSeatID()
+	case !h.rig.hk.TryLock():
+		outcome = "refused"
+	}
+	h.line("# retry seen %d ms after the lock was last seen free", time.Since(free).Milliseconds())
+	h.line("tb retry ch=%d create=%s | %s", ch, b01(outcome != "startfailed"), outcome)
+	h.rec("retry", nil)
+	for _, s := range h.rig.snapsFrom(preSnaps) {
+		if s.State.Status == pokertable.TableStateStatus_TableGameOpened && s.State.GameCount == pre+1 {
+			h.line("tb snap-opened %s", tableObs(s))
+			break
+		}
+	}
+	if outcome == "refused" || outcome == "startfailed" {
+		h.dead = true
+		h.line("%s", h.rig.fullObsNoLock())
+		return outcome
+	}
+	h.line("%s", h.stableObs())
+	if outcome == "opened" {
+		calls := h.rig.be.Calls()
+		for i := len(calls) - 1; i >= 0; i-- {
+			if calls[i].Kind == "create" && calls[i].Opts != nil {
+				o := calls[i].Opts
+				ps := []string{}
+				for _, p := range o.Players {
+					ps = append(ps, fmt.Sprintf("%d:%s", p.Bankroll, strings.Join(p.Positions, "+")))
+				}
+				h.line("tb opts ante=%d blind=%d,%d,%d players=%s", o.Ante, o.Blind.Dealer, o.Blind.SB, o.Blind.BB, strings.Join(ps, ";"))
+				break
+			}
+		}
+		h.st.Hands++
+	} else {
+		h.expectHand = false
+	}
+	return outcome
+}
+
 func (h *tbHist) tryOpen1() string {
 	ids, _ := h.gateParticipants()
 	pre := h.table().State.GameCount
@@ -1005,10 +1365,18 @@ func genTBHistory(r *rand.Rand, st *tbStats, hid int, maxHands int) (out string)
 	if k > h.maxSeat {
 		k = h.maxSeat
 	}
+	lateSitters := r.Intn(9) == 0 // only the first arrival sits in before the first hand is set up
 	for i := 0; i < k; i++ {
-		h.arrive(0.92)
+		switch {
+		case lateSitters && i == 0:
+			h.arrive(1)
+		case lateSitters:
+			h.arrive(0)
+		default:
+			h.arrive(0.92)
+		}
 	}
-	if r.Intn(5) == 0 {
+	if r.Intn(5) == 0 && !lateSitters {
 		h.malformed(false)
 	}
 	// first hand: start, set up the gate with the players that are there
@@ -1017,6 +1385,7 @@ func genTBHistory(r *rand.Rand, st *tbStats, hid int, maxHands int) (out string)
 	h.opSetup(h.table().State.GameCount, h.playerIDs())
 	hands := 1 + r.Intn(maxHands)
 	t0 := time.Now()
+	recovered := false
 	for g := 0; g < hands && !h.dead; g++ {
 		if time.Since(t0) > 11*time.Second {
 			break // stay clear of the 17 s auto-join timer, which the model does not have
@@ -1027,7 +1396,16 @@ func genTBHistory(r *rand.Rand, st *tbStats, hid int, maxHands int) (out string)
 		if h.dead {
 			break
 		}
-		out := h.tryOpen()
+		var out string
+		if g == 0 && lateSitters && !recovered {
+			recovered = true
+			out = h.refusedByPositionsThenRecover()
+		} else if !recovered && r.Intn(7) == 0 {
+			recovered = true // once per history (3 s of waiting)
+			out = h.refusedOpenThenRecover()
+		} else {
+			out = h.tryOpen()
+		}
 		if out != "opened" {
 			// nothing happened (one participant, break, closed…): try to get going again a few times, else stop
 			if out == "nothing" && g+1 < hands {
